@@ -31,8 +31,8 @@ UNITS = {
                   "fn_props": {**PRELUDE_FNS, "em_\\d+": ["C08", "C16"], "as_proc_def|as_call|as_jmps_loops|as_label": ["C08", "C14"],
                                "as_procedure": ["C08", "C16"], "as_int": ["C14", "C18"], "as_offset": ["C12", "C14"],
                                "as_byte_label|as_word_label|as_unsupported|as_offset_as_byte": ["C14"], "as_d[bw]_.*|as_set|advance_data_counter": ["C12", "C14"], "add_entry": ["C16"], "new|get_type": ["C08", "C14"]}},
-    "driver": {"tpl": "driver.rs", "props": ["C07", "C08", "C12", "C14", "C17", "C18", "C19", "C20"],
-               "fn_props": {**PRELUDE_FNS, "run": ["C08"], "user_interface": ["C20"], "note_prompt": ["C20"], "lemma_least_undefined": ["C19", "C14"],
+    "driver": {"tpl": "driver.rs", "rlimit": 200, "props": ["C07", "C08", "C12", "C14", "C16", "C17", "C18", "C19", "C20"],
+               "fn_props": {**PRELUDE_FNS, "run": ["C08"], "user_interface": ["C20"], "note_prompt": ["C20"], "note_lookup|note_cite": ["C16", "C20"], "lemma_least_undefined": ["C19", "C14"],
                             "get_type|get_source_map": ["C08", "C14"]},
                "assumes": [
                    "unit driver: ASSUMED contract of `preprocess` (whole-parse invariant of the assembler: every emitted instruction has a source-map entry, code-label and procedure values <= number of instructions, positions inside the text < 2^31). Its preservation is PROVED for each of the 126 productions under contract in unit `assembler` (clause asm.output_invariant_preserved); what stays assumed is the induction over the LR parse and the productions not under contract (macro definition / use)",
@@ -296,7 +296,7 @@ def run_unit(unit: str, dst: str, root: str):
             vac["err"] = str(e)
     vth = threading.Thread(target=_vac)
     vth.start()
-    cmd = ["verus", path, "--output-json", "--time", "--multiple-errors", "20", "--rlimit", "60"]
+    cmd = ["verus", path, "--output-json", "--time", "--multiple-errors", "20", "--rlimit", str(UNITS[unit].get("rlimit", 60))]
     out_of_reach = []          # functions Verus rejected (construct outside its subset): isolated, reported undecided
     for attempt in range(8):
         try:
